@@ -158,6 +158,11 @@ class FuncScan:
                     r = root_name(val.left)
                 if isinstance(val, (ast.Tuple, ast.List)) and val.elts:
                     r = root_name(val.elts[0])
+                if r not in self.fieldish and isinstance(val, (ast.Tuple, ast.List)) and not isinstance(tgt, ast.Name):
+                    # for suffix, sub in (("_key", key_field), ("_value", value_field)): a literal that mentions field objects
+                    hit = [x for x in ast.walk(val) if isinstance(x, ast.Name) and x.id in self.fieldish]
+                    if hit:
+                        r = hit[0].id
                 if r in self.fieldish and not tn <= self.fieldish:
                     rooted_at_instance = any(isinstance(x, ast.Attribute) and x.attr in ("_instance",) for x in ast.walk(val))
                     if not rooted_at_instance:
